@@ -21,7 +21,7 @@ pub const STR_POOL: &[&str] = &[
     "", "a", "b", "ab", "abc", "aab", "hello", "x y", "A", "é", "aé😀b", "\u{2028}", "\u{ffff}",
     "q\"q", "b\\s", "sl/ash", "tab\tx", "nl\nx", "cr\rx", "\u{1}", "\u{7f}", "\u{1f}", "e", "E",
     "1", "12", "-3", "1.5", "null", "true", "[1]", "{}", "error:", "日本", "ß", "a,b", "a=b",
-    "0123456789012345678901234567890é2", "𝒳", "a<b", "x&y<z>", "<&>",
+    "0123456789012345678901234567890é2", "𝒳", "a<b", "x&y<z>", "<&>", "tail\\", "C:\\temp\\", "😀", "\u{1f60}0",
 ];
 
 const KEY_POOL: &[&str] = &["a", "b", "c", "k", "key", "é", "x y", "", "id", "n"];
@@ -445,6 +445,8 @@ pub fn garbage_byte(rng: &mut Rng) -> u8 {
 pub const SPECIAL_GARBAGE: &[&[u8]] = &[
     b"\xef\xbb\xbf", b"\xff\xfe", b"\xfe\xff", b"\x0c", b"\x0b", b"\x0c\x0c", b"\x1c", b"\x1f", b"\xc2\x85",
     b"\xc2\xa0", b"\xe2\x80\xa8", b"\x00", b"\x7f", b"\xef\xbb", b"\x08",
+    // what other dialects call a comment
+    b"//", b"/*", b"/*x*/", b"#", b"//x",
 ];
 
 pub fn gen_garbage_region(rng: &mut Rng) -> Vec<u8> {
@@ -515,12 +517,16 @@ pub const SELECT_EXPRS: &[&str] = &[
     "(sort_by .arr (stringify .))", "(sort_unique .arr)", "(any (map .arr (number? .)))",
     "(map .arr ^.id)", "(map .arr (| ^.g (concat . \"!\")))", "(cross .arr [1, 2])",
     "\"const\"", "12", "[1, 2]", "null",
+    // a variable rebound from the record on every evaluation
+    "(set \"f\" .g (format_time .id :f))", "(set \"sep\" .g (join .arr :sep))", "(set \"d\" .g (split .s :d))",
+    "(set \"k\" .g (get .obj :k))",
 ];
 
 pub const REGEX_SELECT_EXPRS: &[&str] = &[
     "(match .s \"^a\")", "(match .s \"b$\")", "(match .g \"[a-c]\")", "(match .s .g)",
     "(match .g .s)", "(extract_regex_group .s \"(a+)(b*)\" 1)", "(match .s \"a|é\")",
-    "(match (stringify .id) \"[02468]$\")", "(match .s \"(\")",
+    "(match (stringify .id) \"[02468]$\")", "(match .s \"(\")", "(extract_regex_group .s \"(a)|(b)\" 1)",
+    "(extract_regex_group .s \"(x)?(a)\" 1)", "(match .s \"[0-9\")", "(set \"p\" .g (match .s :p))",
 ];
 
 pub const FILTER_EXPRS: &[&str] = &[
